@@ -150,14 +150,22 @@ theorem slotKeys_cover_registrations (c : Cfg) (f : Nat) (w : World) (wt : Watch
 /-- `obj.p = v` runs the ordinary setter `setPlain` for every parameter type; an Event parameter
 additionally resets itself afterwards, which adds nothing to the log.  So the theorem above speaks
 about every assignment. -/
-theorem assignment_log_is_the_setter's (c : Cfg) (f : Nat) (w : World) (p : Nat) (v : Int) :
+theorem assignment_log_is_the_setter's (c : Cfg) (f : Nat) (w : World) (p : Nat) (v : Int)
+    (h : (run c f (.setPlain p v) w).1 ≠ .oof) :
     (run c (f + 1) (.setAttr p v) w).2.2 = (run c f (.setPlain p v) w).2.2 ∧
     (run c (f + 1) (.setAttr p v) w).1 = (run c f (.setPlain p v) w).1 := by
   simp only [run]
   split
-  · generalize run c f (.setPlain p v) w = d
-    obtain ⟨r1, w1, o1⟩ := d
-    cases r1 <;> simp <;> split <;> simp
+  · by_cases hv0 : c.valid p v = false
+    · -- a rejected value: the Event setter rejects it up front, exactly as the ordinary setter would
+      cases f with
+      | zero => simp [run] at h
+      | succ f => simp [run, hv0]
+    · have hv : c.valid p v = true := by simpa using hv0
+      simp only [hv, Bool.not_true, Bool.false_eq_true, if_false]
+      generalize run c f (.setPlain p v) w = d
+      obtain ⟨r1, w1, o1⟩ := d
+      cases r1 <;> simp <;> split <;> simp
   · exact ⟨rfl, rfl⟩
 
 /-- **C03 (the object already shows the new value), on the log.**  When the first watcher of the
